@@ -619,3 +619,172 @@ theorem insertForms_entries (norm : String → String) (l : Lexicon) (c : Ctx) (
             exact (hfold b2 b1 hf).trans (addForm_entries _ _ _ _ _ _ _ _ _ ha)
 
 end WnVerif.Db
+
+namespace WnVerif.Db
+open WnVerif WnVerif.Doc
+
+/-! ### the same for the `proposed_ilis` and `synsets` tables (steps that run after `_insert_synsets`) -/
+
+def KeepsP {α} (f : Db → α → R Db) : Prop := ∀ b a b', f b a = .ok b' → b'.pilis = b.pilis ∧ b'.synsets = b.synsets
+def KeepsPF (f : Db → R Db) : Prop := ∀ b b', f b = .ok b' → b'.pilis = b.pilis ∧ b'.synsets = b.synsets
+
+theorem fold_keepsP {α} (f : Db → α → R Db) (hf : KeepsP f) : KeepsP (fun db (l : List α) => l.foldlM f db) := by
+  intro b l b' h
+  refine foldlM_ok_induct f (fun _ b b' => b'.pilis = b.pilis ∧ b'.synsets = b.synsets) ?_ ?_ l b b' h
+  · intro b; exact ⟨rfl, rfl⟩
+  · intro a t b b1 b' h1 _ ih
+    obtain ⟨e1, e2⟩ := hf b a b1 h1
+    exact ⟨ih.1.trans e1, ih.2.trans e2⟩
+
+theorem keepsPF_bind (f g : Db → R Db) (hf : KeepsPF f) (hg : KeepsPF g) : KeepsPF (fun b => f b >>= g) := by
+  intro b b' h
+  simp only [bind, Except.bind] at h
+  cases h1 : f b with
+  | error e => rw [h1] at h; simp at h
+  | ok b1 =>
+    rw [h1] at h
+    obtain ⟨a1, a2⟩ := hf b b1 h1
+    obtain ⟨c1, c2⟩ := hg b1 b' h
+    exact ⟨c1.trans a1, c2.trans a2⟩
+
+theorem keepsPF_fold {α} (f : Db → α → R Db) (hf : KeepsP f) (l : List α) : KeepsPF (fun b => l.foldlM f b) :=
+  fun b b' h => fold_keepsP f hf b l b' h
+
+theorem keepsP_nested {α β} (items : α → List β) (f : α → Db → β → R Db) (hf : ∀ a, KeepsP (f a)) :
+    KeepsP (fun db a => (items a).foldlM (f a) db) :=
+  fun b a b' h => fold_keepsP (f a) (hf a) b (items a) b' h
+
+theorem keepsP_entryStep (c : Ctx) : KeepsP (entryStep c) := by keeps_step entryStep
+theorem keepsP_pronStep (c : Ctx) (e : Entry) (fid : Option String) (rank : Option Nat) : KeepsP (pronStep c e fid rank) := by keeps_step pronStep
+theorem keepsP_tagStep (c : Ctx) (e : Entry) (fid : Option String) (rank : Option Nat) : KeepsP (tagStep c e fid rank) := by keeps_step tagStep
+theorem keepsP_senseStep (l : Lexicon) (c : Ctx) (dr : Nat) (e : Entry) : KeepsP (senseStep l c dr e) := by keeps_step senseStep
+theorem keepsP_adjStep (c : Ctx) : KeepsP (adjStep c) := by keeps_step adjStep
+theorem keepsP_countStep (c : Ctx) (s : Sense) : KeepsP (countStep c s) := by keeps_step countStep
+theorem keepsP_sbStep (c : Ctx) : KeepsP (sbStep c) := by keeps_step sbStep
+theorem keepsP_sbSenseStep (c : Ctx) (sb : Sb) : KeepsP (sbSenseStep c sb) := by keeps_step sbSenseStep
+theorem keepsP_synRelStep (c : Ctx) (ss : Synset) : KeepsP (synRelStep c ss) := by keeps_step synRelStep
+theorem keepsP_senseRelStep (c : Ctx) : KeepsP (senseRelStep c) := by keeps_step senseRelStep
+theorem keepsP_senseSynRelStep (c : Ctx) : KeepsP (senseSynRelStep c) := by keeps_step senseSynRelStep
+theorem keepsP_defStep (c : Ctx) (ss : Synset) : KeepsP (defStep c ss) := by keeps_step defStep
+theorem keepsP_senseExampleStep (c : Ctx) (s : Sense) : KeepsP (senseExampleStep c s) := by keeps_step senseExampleStep
+theorem keepsP_synsetExampleStep (c : Ctx) (ss : Synset) : KeepsP (synsetExampleStep c ss) := by keeps_step synsetExampleStep
+
+theorem addForm_keepsPili (db db1 : Db) (norm : String → String) (lexid er : Nat) (id : Option String) (form : String)
+    (script : Option String) (rank : Nat) (h : addForm db norm lexid er id form script rank = .ok db1) :
+    db1.pilis = db.pilis ∧ db1.synsets = db.synsets := by
+  unfold addForm at h
+  simp only [bind, Except.bind, pure, Except.pure] at h
+  split at h
+  · simp [throw, throwThe, MonadExcept.throw] at h
+  · simp only [Except.ok.injEq] at h; subst h; exact ⟨rfl, rfl⟩
+
+theorem keepsP_formStep (norm : String → String) (c : Ctx) (e : Entry) : KeepsP (formStep norm c e) := by
+  intro b fi b' h
+  unfold formStep at h
+  split at h
+  · simp only [Except.ok.injEq] at h; subst h; exact ⟨rfl, rfl⟩
+  · cases he : entryRow b e.id (c.lid e.id) with
+    | none => simp [he, need, bind, Except.bind] at h
+    | some er =>
+      simp only [he, need, bind, Except.bind] at h
+      exact addForm_keepsPili _ _ _ _ _ _ _ _ _ h
+
+theorem keepsP_entryFormsStep (norm : String → String) (c : Ctx) : KeepsP (entryFormsStep norm c) := by
+  intro b e b' h
+  unfold entryFormsStep at h
+  simp only [bind, Except.bind] at h
+  cases hx : e.external with
+  | true =>
+    simp only [hx, Bool.not_true, Bool.false_eq_true, if_false, pure, Except.pure] at h
+    exact fold_keepsP _ (keepsP_formStep norm c e) b e.forms.zipIdx b' h
+  | false =>
+    simp only [hx, Bool.not_false, if_true] at h
+    cases hl : e.lemma with
+    | none => simp [hl, need] at h
+    | some lem =>
+      simp only [hl, need] at h
+      cases he : entryRow b e.id (c.lid e.id) with
+      | none => simp [he] at h
+      | some er =>
+        simp only [he] at h
+        cases ha : addForm b norm c.lexid er none lem.form lem.script 0 with
+        | error x => simp [ha] at h
+        | ok b1 =>
+          simp only [ha] at h
+          have k1 := addForm_keepsPili _ _ _ _ _ _ _ _ _ ha
+          have k2 := fold_keepsP _ (keepsP_formStep norm c e) b1 e.forms.zipIdx b' h
+          exact ⟨k2.1.trans k1.1, k2.2.trans k1.2⟩
+
+theorem keepsPF_insertPronsTags (l : Lexicon) (c : Ctx) : KeepsPF (fun b => insertPronsTags b l c) := by
+  unfold insertPronsTags
+  apply keepsPF_bind
+  · apply keepsPF_fold
+    apply keepsP_nested (fun e => formLikes e) (fun e db fl => fl.2.2.1.foldlM (pronStep c e fl.1 fl.2.1) db)
+    intro e
+    exact fun b fl b' h => fold_keepsP _ (keepsP_pronStep c e fl.1 fl.2.1) b fl.2.2.1 b' h
+  · apply keepsPF_fold
+    apply keepsP_nested (fun e => formLikes e) (fun e db fl => fl.2.2.2.foldlM (tagStep c e fl.1 fl.2.1) db)
+    intro e
+    exact fun b fl b' h => fold_keepsP _ (keepsP_tagStep c e fl.1 fl.2.1) b fl.2.2.2 b' h
+
+theorem keepsPF_insertSenses (l : Lexicon) (c : Ctx) (dr : Nat) : KeepsPF (fun b => insertSenses b l c dr) := by
+  unfold insertSenses
+  apply keepsPF_bind
+  · apply keepsPF_fold
+    exact keepsP_nested (fun e => (localSenses e).zipIdx) (fun e => senseStep l c dr e) (fun e => keepsP_senseStep l c dr e)
+  · apply keepsPF_bind
+    · apply keepsPF_fold
+      exact keepsP_nested (fun e => localSenses e) (fun _ => adjStep c) (fun _ => keepsP_adjStep c)
+    · apply keepsPF_fold
+      apply keepsP_nested (fun (e : Entry) => e.senses) (fun _ db s => s.counts.foldlM (countStep c s) db)
+      intro _
+      exact fun b s b' h => fold_keepsP _ (keepsP_countStep c s) b s.counts b' h
+
+theorem keepsPF_insertSbs (sbs : List Sb) (c : Ctx) : KeepsPF (fun b => insertSbs b sbs c) := by
+  unfold insertSbs
+  apply keepsPF_bind
+  · exact keepsPF_fold _ (keepsP_sbStep c) sbs
+  · apply keepsPF_fold
+    exact keepsP_nested (fun (sb : Sb) => sb.senses) (fun sb => sbSenseStep c sb) (fun sb => keepsP_sbSenseStep c sb)
+
+theorem keepsPF_insertDefsExamples (l : Lexicon) (c : Ctx) : KeepsPF (fun b => insertDefsExamples b l c) := by
+  unfold insertDefsExamples
+  apply keepsPF_bind
+  · apply keepsPF_fold
+    exact keepsP_nested (fun (ss : Synset) => ss.definitions) (fun ss => defStep c ss) (fun ss => keepsP_defStep c ss)
+  · apply keepsPF_bind
+    · apply keepsPF_fold
+      apply keepsP_nested (fun (e : Entry) => e.senses) (fun _ db s => s.examples.foldlM (senseExampleStep c s) db)
+      intro _
+      exact fun b s b' h => fold_keepsP _ (keepsP_senseExampleStep c s) b s.examples b' h
+    · apply keepsPF_fold
+      exact keepsP_nested (fun (ss : Synset) => ss.examples) (fun ss => synsetExampleStep c ss) (fun ss => keepsP_synsetExampleStep c ss)
+
+theorem keepsPF_insertRelations (l : Lexicon) (c : Ctx) : KeepsPF (fun b => insertRelations b l c) := by
+  intro b b' h
+  unfold insertRelations at h
+  simp only [bind, Except.bind] at h
+  cases h1 : l.synsets.foldlM (fun db ss => ss.relations.foldlM (synRelStep c ss) db) b with
+  | error e => rw [h1] at h; simp at h
+  | ok b1 =>
+    rw [h1] at h
+    have k1 := keepsPF_fold _ (keepsP_nested (fun (ss : Synset) => ss.relations) (fun ss => synRelStep c ss) (fun ss => keepsP_synRelStep c ss)) l.synsets b b1 h1
+    simp only at h
+    split at h
+    · simp [throw, throwThe, MonadExcept.throw] at h
+    · cases h2 : List.foldlM (senseRelStep c) b1 ((allSenseRels l).filter (fun p => (l.entries.flatMap (fun e => e.senses.map (·.id))).contains p.2.target)) with
+      | error e => rw [h2] at h; simp at h
+      | ok b2 =>
+        rw [h2] at h
+        have k2 := keepsPF_fold _ (keepsP_senseRelStep c) _ b1 b2 h2
+        have k3 := keepsPF_fold _ (keepsP_senseSynRelStep c) _ b2 b' h
+        exact ⟨k3.1.trans (k2.1.trans k1.1), k3.2.trans (k2.2.trans k1.2)⟩
+
+theorem keepsPF_insertEntries (l : Lexicon) (c : Ctx) : KeepsPF (fun b => insertEntries b l c) :=
+  keepsPF_fold _ (keepsP_entryStep c) _
+
+theorem keepsPF_insertForms (norm : String → String) (l : Lexicon) (c : Ctx) : KeepsPF (fun b => insertForms b norm l c) :=
+  keepsPF_fold _ (keepsP_entryFormsStep norm c) _
+
+end WnVerif.Db
+
